@@ -1,4 +1,4 @@
-import Coraza.Model.Regex
+import Coraza.Model.RegexBudget
 /-!
   Driver engine `rxm`: `rxm <pattern> <in;in;…> => re=<ERR|bits> op=<ERR|bits> caps=<ok|BAD…|->`
   The model predicts, for every ASCII input, whether Go's regexp finds the pattern as written
@@ -14,7 +14,9 @@ def splitInputs (s : String) : Option (List Bytes) :=
   if s.isEmpty then some [] else (s.splitOn ";").mapM Bytes.ofField
 
 def bitsOf (r : Re) (ins : List Bytes) : String :=
-  String.ofList (ins.map fun i => if i.all isAscii then (if search r i then '1' else '0') else '?')
+  -- '?': not compared — input that is not ASCII, or a derivative past the size budget (searchB, sound w.r.t. search)
+  String.ofList (ins.map fun i => if i.all isAscii then
+    (match searchB 4000 r i with | some true => '1' | some false => '0' | none => '?') else '?')
 
 def agree (m o : String) : Bool :=
   m.length == o.length && (m.toList.zip o.toList).all fun p => p.1 == '?' || p.1 == p.2
